@@ -95,6 +95,23 @@ CLAIMED = {
              "HDF5 file comparing an API-level picture of the whole file. One known finding "
              "(KF-C12-1, known_findings.json).",
         ref="3 C12"),
+    "C03": dict(
+        text="(a) check_entity_name refuses exactly the empty name and names containing '/', for every "
+             "string up to 6 characters (free symbolic string). (b) For 11 container kinds (blocks, "
+             "sections and subsections, properties, arrays, tags, multi-tags, groups, sources and "
+             "sub-sources, a group's link list) and every pair of names from a table containing "
+             "names that sort against creation order, 32-hex / UUID-text / urn / brace names, a "
+             "non-ASCII and a 300-character name: duplicates are refused with DuplicateName, every "
+             "other name accepted; len, iteration, items(), lookup by name / id / position, "
+             "membership by name / id / entity all describe creation order, also after deleting any "
+             "element by name, id, index or object, and the freed name can be reused with a new id. "
+             "(c) positional indexing agrees for EVERY integer index (wrap-around and IndexError "
+             "exactly outside [-L, L)).",
+        note="Runs on fakeh5 (creation-order iteration, hard links and H5Ovisit order validated "
+             "against h5py each run); ids from a counter stub (uuid4 randomness outside); quick tier "
+             "uses 4 of the 8 table names and deletion by name/id; data frames and behaviour after "
+             "reopening (libhdf5) are outside. Counterexamples replayed on a real HDF5 file.",
+        ref="3 C03"),
 }
 
 NOT_APPLICABLE = {
